@@ -595,6 +595,21 @@ fn tiny_arena(r: &mut Rng) -> Profile {
     p
 }
 
+fn keepalive_mix(r: &mut Rng) -> Profile {
+    let mut p = Profile::default();
+    p.name = "keepalive-mix";
+    p.keepalive_choices = vec![1, 2, 3, 9, 10, 60];
+    p.ska_choices = vec![None, None, Some(1), Some(5)];
+    p.ping_modes = vec![AckMode::Immediate, AckMode::Delay(3_000_000), AckMode::Delay(4_999_999), AckMode::Never];
+    p.poll_waits = vec![0, 1_000_000, 6_000_000, 20_000_000];
+    p.w_poll = 40;
+    p.w_advance = 0;
+    p.bad_connack_pct = 3;
+    p.max_conns = 4;
+    let _ = r;
+    p
+}
+
 fn dead_handle(r: &mut Rng) -> Profile {
     let mut p = Profile::default();
     p.name = "dead-handle";
@@ -743,6 +758,24 @@ pub fn all() -> Vec<Box<dyn Check>> {
         required: vec!["connects_compared", "publishes_compared", "subscribes_compared", "disconnects_compared", "refused_requests"],
         exhaustive: false,
     }),
+    Box::new(MixCheck {
+        id: "C10",
+        level: "exploration",
+        rule: "virtual-time executions in which the application waits in poll() all the time: keep-alive in {0,1,2,3,9,10,11,60,65535} s x Server Keep Alive override {none,0,1,5,30,65535} s; outbound publishes, inbound publishes and PINGRESP placed at deadline-1 tick, deadline, deadline+1 tick and random instants; PINGRESP immediate / delayed by 4999999, 5000000, 5000001 us, KA/2+-1 tick, random / never. The monitor measures the gap between consecutive completed client packets against the effective keep-alive, the absence of pings at keep-alive 0, the instant at which an unanswered PINGREQ ends the wait (exactly 5 s after its flush), no disconnect when the PINGRESP came in time, never two outstanding pings. Non-trivial iff a PINGREQ was sent or a timeout fired.",
+        assumptions: {
+            let mut v = COMMON_ASSUME.to_vec();
+            v.push("the documented round-trip bound is ROUND_TRIP_TIMEOUT_MS = 5000 ms, counted from the completion of the PINGREQ flush");
+            v.push("virtual time advances only while the application waits; transport calls take no time");
+            v
+        },
+        workloads: vec![("keepalive", 4000, 400_000, Source::Script(crate::scripts::c10_script))],
+        monitor: m::c10::check,
+        max_steps: 60,
+        epilogue_polls: 0,
+        min_nt: (200, 2000),
+        required: vec!["pingreq_seen", "dead_peer_detected", "pingresp_in_time", "connections_with_keepalive_zero"],
+        exhaustive: false,
+    }),
     Box::new(SweepCheck {
         id: "C11",
         level: "fault_enumeration",
@@ -778,7 +811,7 @@ pub fn all() -> Vec<Box<dyn Check>> {
         level: "fault_enumeration",
         rule: "liveness restated as bounded progress: the end state of every explored history (random programs re-executed with a transport fault at every I/O call index and a cancellation at every await index; saturated queues, crashes in the middle of a replay) is continued benignly (reconnect with the session present if the client asks for it, whole-buffer transport, broker acknowledging everything at once, no restrictive limits) and poll() is called until the client goes idle; it must do so within N = 208 + 8 x inbound backlog calls, be publish-quiescent with every non-invalidated handle complete and no owed control packet left, never exceed the per-call watchdog budget (4096 transport calls), and poll() may return Ok(None) only after a byte moved or a flush completed. Non-trivial iff the continuation started with queued entries or after a failed operation; distinct keys = end-state shapes (retained/release/control/inbound-QoS2 counts).",
         assumptions: COMMON_ASSUME.to_vec(),
-        workloads: vec![("replay-heavy", 150, 15_000, replay_heavy as ProfileFn), ("inbound-heavy", 100, 10_000, inbound_heavy), ("general", 100, 10_000, general)],
+        workloads: vec![("replay-heavy", 150, 15_000, replay_heavy as ProfileFn), ("inbound-heavy", 100, 10_000, inbound_heavy), ("general", 100, 10_000, general), ("keepalive-mix", 100, 10_000, keepalive_mix)],
         monitor: m::c16::check,
         max_steps: 40,
         epilogue_polls: 260,
